@@ -191,6 +191,12 @@ def _sm_part(ck, tier):
                     chain.take_step()
                     new = chain.get_last()
                     img = new[1] / unit
+                    if not np.isfinite(img):
+                        ck.violation("InForce (recorded sample / evaluated point inside every limit in force)",
+                                     {"hist": h["hist"], "allowed": [alo, ahi], "t": t, "got": "not finite", "cls": cls.__name__, "unit": unit},
+                                     site=f"{cls.__name__}.limits")
+                        ok = False
+                        break
                     if img != round(img):
                         ck.violation("proposal image on lattice", {"hist": h["hist"], "t": t, "image": new[1], "cls": cls.__name__},
                                      site=f"{cls.__name__}.proposal")
@@ -438,6 +444,51 @@ def _gibbs_reload_part(ck, tier):
                     break
 
 
+def _start_part(ck, tier):
+    """a starting point outside the limits given at construction: refused, or -- if accepted -- never recorded outside"""
+    from inference.mcmc import EnsembleSampler, HamiltonianChain, PcaChain
+    post = lambda x: -0.5 * float(np.sum((np.asarray(x, dtype=float) - 7.5) ** 2) / 0.01)      # peaked at the offending point: it would stay put
+    lo, hi = np.array([-5.0, -5.0]), np.array([5.0, 5.0])
+    walkers = np.array([[0.0, 1.0], [1.0, -1.0], [-2.0, 2.0], [3.0, 0.5], [-1.0, -3.0], [2.0, 2.5]])
+    for bad_walker in range(len(walkers)):
+        w = walkers.copy()
+        w[bad_walker] = [7.5, 7.5]
+        ck.case(("start", "ensemble", bad_walker))
+        try:
+            ch = EnsembleSampler(posterior=post, starting_positions=w, bounds=(lo, hi), display_progress=False)
+        except ValueError:
+            continue                                        # refused: nothing is ever recorded
+        except Exception as ex:
+            ck.violation("EnsembleSampler raised an unexpected error for a start outside the bounds", {"walker": bad_walker, "error": repr(ex)[:200]},
+                         site="EnsembleSampler.__init__")
+            continue
+        ch.advance(3)
+        smp = np.asarray(ch.get_sample(), dtype=float)
+        worst = max(_ulps_excess(float(v), float(a), float(b)) for row in smp for v, a, b in zip(row, lo, hi))
+        if worst > 4:
+            ck.violation("a walker started outside the bounds was accepted and recorded outside them",
+                         {"walker_index": bad_walker, "start": w[bad_walker].tolist(), "bounds": [lo.tolist(), hi.tolist()], "ulps_outside": int(worst)},
+                         site="EnsembleSampler.__init__:start")
+    for cname, mk in (("HamiltonianChain", lambda st: HamiltonianChain(posterior=post, grad=lambda x: -(np.asarray(x) - 7.5) / 0.01, start=st, bounds=(lo, hi),
+                                                                       display_progress=False)),
+                      ("PcaChain", lambda st: PcaChain(posterior=post, start=st, widths=np.array([0.1, 0.1]), bounds=(lo, hi), display_progress=False))):
+        for st in (np.array([7.5, 0.0]), np.array([0.0, 7.5])):
+            ck.case(("start", cname, tuple(st)))
+            try:
+                ch = mk(st.copy())
+            except ValueError:
+                continue
+            except Exception as ex:
+                ck.violation("sampler raised an unexpected error for a start outside the bounds", {"class": cname, "error": repr(ex)[:200]}, site=f"{cname}.__init__")
+                continue
+            ch.advance(3)
+            smp = np.asarray(ch.get_sample(burn=0), dtype=float)
+            worst = max(_ulps_excess(float(v), float(a), float(b)) for row in smp for v, a, b in zip(row, lo, hi))
+            if worst > 4:
+                ck.violation("a start outside the bounds was accepted and recorded outside them", {"class": cname, "start": st.tolist(), "ulps_outside": int(worst)},
+                             site=f"{cname}.__init__:start")
+
+
 def run(tier):
     ck = Check("C04", tier)
     ck.rule = ("maps: one case per (box, dyadic scale, offset) with 2R+W+1 points each; state machine: one case per "
@@ -454,6 +505,7 @@ def run(tier):
     # the exact bounded orbits of Leapfrog.tla replayed bit-exactly into run_leapfrog (positions AND momenta)
     from harness import c07
     c07.orbit_part(ck, tier, only_box=True, reversibility=False)
+    _start_part(ck, tier)
     from harness import repotests
     repotests.run_part(ck, "C04")          # traces of the repository's own MCMC tests, judged by TestRunTrace.tla
     return ck.finish()
